@@ -305,7 +305,8 @@ static int c18_valid_body(Buf *b, uint32_t ord) {
         uint32_t at = chance(60) ? 0 : chance(50) ? (uint32_t[]){1, 2, 4, 0x1000, 0x2000, 0x4000, 0x8000, 0x10000, 0x20000, 0x40000, 0x80000000u}[rnd(11)] : (uint32_t)rnd64();
         t12_nv_public(b, idx, at, chance(85) ? rnd(200) : c18_interesting_u32()); b_fill(b, 20, chance(50) ? 1 : 0); return 1; }
     case T12_ORD_NV_WriteValue: { uint32_t n = rnd(100); b_u32(b, 0x00011200u + rnd(6)); b_u32(b, chance(80) ? rnd(50) : c18_interesting_u32()); b_u32(b, n); b_fill(b, n, 0); return 1; }
-    case T12_ORD_NV_ReadValue: b_u32(b, 0x00011200u + rnd(6)); b_u32(b, chance(80) ? rnd(50) : c18_interesting_u32()); b_u32(b, chance(80) ? rnd(200) : c18_interesting_u32()); return 1;
+    case T12_ORD_NV_ReadValue: if (chance(25)) { b_u32(b, 0x00011204u); b_u32(b, rnd(8)); b_u32(b, tpm12_maxbuf() - 40 + rnd(60)); return 1; }
+        b_u32(b, 0x00011200u + rnd(6)); b_u32(b, chance(80) ? rnd(50) : c18_interesting_u32()); b_u32(b, chance(80) ? rnd(200) : c18_interesting_u32()); return 1;
     case T12_ORD_DAA_Join: { b_u32(b, c18_interesting_u32()); b_u8(b, rnd(26)); uint32_t n = rnd(40); b_u32(b, n); b_fill(b, n, 0); n = rnd(40); b_u32(b, n); b_fill(b, n, 0); return 1; }
     default: return 0;
     }
@@ -409,6 +410,11 @@ static void c18_prefix(Buf *b, int h) {
         t12_begin(b, T12_TAG0, T12_ORD_NV_DefineSpace); t12_nv_public(b, 0x00011200u + i, i == 2 ? 0x10001u : 0, 16 + 16 * i); b_fill(b, 20, 1); c18_run(b);
     }
     { uint8_t d[8] = {1, 2, 3, 4, 5, 6, 7, 8}; t12_begin(b, T12_TAG0, T12_ORD_NV_WriteValue); b_u32(b, 0x00011200u); b_u32(b, 0); b_u32(b, 8); b_bytes(b, d, 8); c18_run(b); }
+    /* responses around the negotiated buffer size: a 4200-byte NV area read with sizes that make the response end
+       just below / at / above TPM12_GetBufferSize() (14 = header + length field) */
+    t12_begin(b, T12_TAG0, T12_ORD_NV_DefineSpace); t12_nv_public(b, 0x00011204u, 0x10001u, 4200); b_fill(b, 20, 1); c18_run(b);
+    { uint32_t mb = tpm12_maxbuf(); int32_t off[] = {-15, -14, -13, 0, 50};
+      for (int i = 0; i < 5; i++) { t12_begin(b, T12_TAG0, T12_ORD_NV_ReadValue); b_u32(b, 0x00011204u); b_u32(b, 0); b_u32(b, (uint32_t)((int32_t)mb + off[i])); c18_run(b); } }
     t12_begin(b, T12_TAG0, T12_ORD_SHA1Start); c18_run(b);
 }
 /* the stream contains PhysicalDisable / SetDeactivated / ForceClear ...: bring the TPM back to enabled+activated
@@ -587,7 +593,7 @@ static void c20_history(int h, void *arg) {
             case 0: if (sz == 3) sel[2] = (uint8_t)(1u << rnd(8)); break;                 /* one of 16..23 */
             case 1: if (sz == 3) sel[2] = (uint8_t)rnd64(); break;                         /* several of 16..23 */
             case 2: for (int k = 0; k < sz; k++) sel[k] = (uint8_t)rnd64(); break;         /* anything */
-            case 3: break;                                                                  /* nothing selected */
+            case 3: if (chance(60) && sz) sel[rnd(sz)] = (uint8_t)(1u << rnd(8)); break;            /* exactly one PCR anywhere / nothing selected */
             default: if (sz == 3) { sel[2] = (uint8_t[]){0x81, 0x01, 0x80, 0x60, 0x10, 0x1E}[rnd(6)]; } else if (sz) sel[0] = 1; break; }
             c20_pcrreset(&b, sel, sz); break; }
         case 11: case 12: case 13: case 14: c20_sha_thread(&b); break;
